@@ -64,8 +64,27 @@ StmtsC03 ==
     \cup {[k |-> "CopyDecay", m |-> "c", src |-> "X"], [k |-> "Alias", m |-> "a", src |-> "X"]}
 BaseC03 == [n \in {"X", "Xb", "s"} |-> CASE n = "X" -> "Xb" [] n = "Xb" -> "X" [] n = "s" -> "s"]
 
-Stmts == CASE Profile = "C01" -> StmtsC01 [] Profile = "C03" -> StmtsC03 [] Profile = "C05" -> StmtsC05
-Base  == CASE Profile = "C01" -> BaseC01  [] Profile = "C03" -> BaseC03  [] Profile = "C05" -> BaseC05
+\* --- C09 / C10: acyclic table sets (A may decay to B, C; B to C), repeated decaying
+\* daughters, empty blocks, decaying aliases
+LinesQ(m) ==
+    CASE m = "A" -> { Ln("n1", <<"B", "x">>, FALSE, "model", "M1", <<>>),
+                      Ln("n2", <<"B", "B">>, TRUE, "model", "M2", <<Num("n1")>>),
+                      Ln("n3", <<"C", "B", "x">>, FALSE, "model", "M1", <<Word("w1")>>),
+                      Ln("n2", <<"x">>, FALSE, "model", "M1", <<>>) }
+      [] m = "B" -> { Ln("n1", <<"C", "x">>, FALSE, "model", "M1", <<>>),
+                      Ln("n2", <<"C", "C">>, FALSE, "model", "M2", <<Num("n2")>>),
+                      Ln("n3", <<"y">>, TRUE, "model", "M1", <<>>) }
+      [] m = "C" -> { Ln("n1", <<"x", "y">>, FALSE, "model", "M1", <<>>),
+                      Ln("n2", <<"y">>, FALSE, "model", "M2", <<>>) }
+StmtsC09 ==
+    {[k |-> "Decay", m |-> m, lines |-> ls] : m \in {"A"}, ls \in SeqsUpTo(LinesQ("A"), MaxLines)}
+    \cup {[k |-> "Decay", m |-> m, lines |-> ls] : m \in {"B"}, ls \in SeqsUpTo(LinesQ("B"), MaxLines)}
+    \cup {[k |-> "Decay", m |-> m, lines |-> ls] : m \in {"C"}, ls \in SeqsUpTo(LinesQ("C"), MaxLines)}
+    \cup {[k |-> "Alias", m |-> "B", src |-> "Br"], [k |-> "Alias", m |-> "C", src |-> "Cr"],
+          [k |-> "Alias", m |-> "x", src |-> "xr"]}
+
+Stmts == CASE Profile = "C09" -> StmtsC09 [] Profile = "C01" -> StmtsC01 [] Profile = "C03" -> StmtsC03 [] Profile = "C05" -> StmtsC05
+Base  == CASE Profile = "C09" -> BaseC01 [] Profile = "C01" -> BaseC01  [] Profile = "C03" -> BaseC03  [] Profile = "C05" -> BaseC05
 
 \* well-formedness = the quantifier of the properties
 AtMostOneCDecayEach(f) ==
@@ -176,7 +195,35 @@ ConjInvolution ==
                     ConjOf(src, Base, n) # Wrap(n) => ConjOf(src, Base, ConjOf(src, Base, n)) = n
     IN Profile = "C03" => wfcc
 
+\* C09 / C10 lemmas on the unfolding operators
+AllNamesQ == {"A", "B", "C", "x", "y"}
+C09_Lemmas ==
+    (Profile = "C09" /\ phase = "ready") =>
+        \A i \in DOMAIN tables :
+            LET m == tables[i].m IN
+            /\ Acyclic(tables, {})
+            /\ Len(ChainEntries(tables, m, {})) = Len(tables[i].lines)
+            \* with every name stable nothing is unfolded
+            /\ \A j \in DOMAIN tables[i].lines :
+                  \A q \in DOMAIN tables[i].lines[j].ds :
+                      ~ChainEntries(tables, m, AllNamesQ)[j].fs[q].dec
+            \* a stable set only prunes: the root entries keep bf, model and parameters
+            /\ \A S \in SUBSET {"B", "C"} :
+                  \A j \in DOMAIN tables[i].lines :
+                      /\ ChainEntries(tables, m, S)[j].bf = tables[i].lines[j].bf
+                      /\ \A q \in DOMAIN tables[i].lines[j].ds :
+                            LET k == ChainEntries(tables, m, S)[j].fs[q] IN
+                            k.dec <=> (HasTable(tables, k.n) /\ k.n \notin S)
+\* C10: the enumeration of choices has exactly the size given by the counting recursion
+C10_Count ==
+    (Profile = "C09" /\ phase = "ready") =>
+        \A i \in DOMAIN tables :
+            Cardinality(PathChoices(src, tables, tables[i].m)) = NPaths(tables, tables[i].m)
+
 \* reachability companions (expected to be violated)
+NeverNested == ~(Profile = "C09" /\ phase = "ready" /\
+                  \E i \in DOMAIN tables : \E j \in DOMAIN tables[i].lines :
+                     \E q \in DOMAIN tables[i].lines[j].ds : Decays(tables, tables[i].lines[j].ds[q]))
 NeverFails == phase # "failed"
 NeverConj  == ~(phase = "ready" /\ DerivedNames \ CopyNames # {})
 NeverDrop  == ~(phase = "deduped" /\ Len(tables) < Len(P_Find(src)))
